@@ -9,9 +9,10 @@ list of chunks: each `HAWK_TIO_DATA` call delivers the next chunk, or as much of
 room it was offered (the rest stays first in the list); an exhausted list or an empty chunk is the
 handler's "0 bytes = end of input".
 
-Write side: `hawk_tio_writeuchars` / `hawk_tio_writebchars` with the flush on full / newline; the
-output handler accepts everything it is offered in one call (hawk_tio_flush's retry loop for a
-partially accepting handler is not modelled); `sink` records the calls made to it.
+Write side: `hawk_tio_flush`'s loop against an adversarial output handler (a script of replies: accept 1..offered
+bytes, accept nothing, fail — with what the buffer and `outbuf_len` are after every exit path), and
+`hawk_tio_writeuchars` / `hawk_tio_writebchars` on top with the flush on full / newline (HAWK_TIO_NOAUTOFLUSH included);
+`sink` records what the handler accepted, call by call.
 
 `Cfg.legacy = true` reproduces the code before the two repairs proposed with this check
 (patches/tio-illseq-oob.diff, patches/tio-shift-overlap.diff); all theorems are about
@@ -24,6 +25,7 @@ open Hawk.Gen Hawk.Utf8
 inductive Err
   | eecerr     -- HAWK_EECERR: encoding conversion error
   | ebuffull   -- HAWK_EBUFFULL
+  | eioerr     -- the output handler failed (it sets the error number; the harness's sets HAWK_EIOERR)
 deriving Repr, DecidableEq
 
 structure Cfg where
@@ -225,26 +227,62 @@ def readAllBytes (cfg : Cfg) (size : Nat) (st : InSt) : List UInt8 × Bool :=
     else (b :: bs, false)
 termination_by pending st
 
-/-! ## write side -/
+/-! ## write side
+
+The output handler is adversarial: every `HAWK_TIO_DATA` call is answered by the next `Reply` of a script —
+accept `k+1` bytes (never more than offered), accept nothing (`zero`), or fail; an exhausted script accepts
+everything.  `sink` records the slices the handler *accepted*, oldest first; `ncalls` counts its calls. -/
+
+inductive Reply
+  | acc (k : Nat)   -- n = min (k+1) offered
+  | zero            -- n = 0
+  | fail            -- n = -1
+deriving Repr, DecidableEq
 
 structure OutSt where
   buf : List UInt8 := []             -- out.buf.ptr[0 .. outbuf_len)
-  sink : List (List UInt8) := []     -- the HAWK_TIO_DATA calls made to the output handler, oldest first
+  sink : List (List UInt8) := []     -- what the output handler accepted, call by call
+  script : List Reply := []          -- what the output handler is going to answer
+  ncalls : Nat := 0                  -- HAWK_TIO_DATA calls made so far
 deriving Repr, DecidableEq
 
-/-- `hawk_tio_flush` with a handler that accepts all it is offered -/
-def flush (o : OutSt) : OutSt :=
-  if o.buf = [] then o else { buf := [], sink := o.sink ++ [o.buf] }
-
-/-- all bytes that left through the handler plus those still staged -/
+/-- all bytes the handler accepted plus those still staged -/
 def OutSt.all (o : OutSt) : List UInt8 := o.sink.flatten ++ o.buf
 
-theorem flush_buf (o : OutSt) : (flush o).buf = [] := by
-  unfold flush; split <;> simp_all
+structure FlushOut where
+  rem : List UInt8                   -- bytes from `cur` to the end: what the buffer holds afterwards (moved to its head)
+  sink : List (List UInt8)
+  script : List Reply
+  ncalls : Nat
+  ok : Bool                          -- false: the `return -1` inside the loop
+deriving Repr, DecidableEq
+
+/-- the `while (left > 0)` loop of `hawk_tio_flush`; `rem` = the bytes at `cur .. cur+left`.  On every exit path the C
+leaves exactly `rem` at the head of the buffer and `outbuf_len = left` (on the error path by the assignment inside the
+branch when something had been accepted, otherwise because nothing changed). -/
+def flushLoop : List Reply → List UInt8 → List (List UInt8) → Nat → FlushOut
+  | [], rem, sink, nc =>
+    if rem = [] then ⟨[], sink, [], nc, true⟩ else ⟨[], sink ++ [rem], [], nc + 1, true⟩
+  | r :: s, rem, sink, nc =>
+    if rem = [] then ⟨rem, sink, r :: s, nc, true⟩
+    else
+      match r with
+      | .fail => ⟨rem, sink, s, nc + 1, false⟩
+      | .zero => ⟨rem, sink, s, nc + 1, true⟩
+      | .acc k => flushLoop s (rem.drop (min (k + 1) rem.length)) (sink ++ [rem.take (min (k + 1) rem.length)]) (nc + 1)
+
+/-- `hawk_tio_flush`: new state and return value (`none` = -1, `some count` = bytes handed out by this call) -/
+def flush (o : OutSt) : OutSt × Option Nat :=
+  let r := flushLoop o.script o.buf o.sink o.ncalls
+  ({ buf := r.rem, sink := r.sink, script := r.script, ncalls := r.ncalls },
+   if r.ok then some (o.buf.length - r.rem.length) else none)
+
+/-- progress measure of the retry loops: replies left plus bytes staged -/
+def OutSt.work (o : OutSt) : Nat := o.script.length + o.buf.length
 
 /-- the `while (xwlen > 0)` loop of `hawk_tio_writeuchars`; `nl` is the C local.
-`Fault.hang`: the C loop would spin (nothing converted and nothing to flush) – only possible when the
-buffer capacity is smaller than one character, which `hawk_tio_attachout` refuses. -/
+`Fault.hang`: the C loop would spin without the handler being asked (nothing converted and nothing to flush) – only
+possible when the buffer capacity is smaller than one character, which `hawk_tio_attachout` refuses. -/
 def writeULoop (cfg : Cfg) (ws : List Nat) (o : OutSt) (nl : Bool) : OutSt × Bool × Option (Sum Err Fault) :=
   if hw : ws = [] then (o, nl, none)
   else
@@ -253,31 +291,35 @@ def writeULoop (cfg : Cfg) (ws : List Nat) (o : OutSt) (nl : Bool) : OutSt × Bo
       let o1 : OutSt := { o with buf := o.buf ++ bs }
       if n = -2 then
         -- the buffer is not large enough to convert more: flush now and continue
-        if hprog : wcnt = 0 ∧ o.buf = [] then (o1, nl, some (.inr .hang))
-        else writeULoop cfg (ws.drop wcnt) (flush o1) false
+        match flush o1 with
+        | (o2, none) => (o2, nl, some (.inl .eioerr))
+        | (o2, some _) =>
+          if hprog : wcnt ≠ 0 ∨ o2.work < o.work then writeULoop cfg (ws.drop wcnt) o2 false
+          else (o2, nl, some (.inr .hang))
       else
-        let full := decide (o1.buf.length ≥ cfg.capa)
-        let o2 := if full then flush o1 else o1
-        let nl2 := if full then false else nl
-        if n ≤ -1 then
-          -- an invalid wide character
-          if cfg.ignoreEcerr then
-            writeULoop cfg (ws.drop (wcnt + 1)) { o2 with buf := o2.buf ++ [0x3F] } nl2
-          else (o2, nl2, some (.inl .eecerr))
-        else
-          let nl3 := if !cfg.noAutoFlush && !nl2 then decide (0x0A ∈ ws.take wcnt) else nl2
-          if hz : wcnt = 0 then (o2, nl3, some (.inr .hang))   -- unreachable: n = 0 converts all of ws ≠ []
-          else writeULoop cfg (ws.drop wcnt) o2 nl3
-termination_by (ws.length, o.buf.length)
+        -- flush the full buffer regardless of conversion result
+        match (if o1.buf.length ≥ cfg.capa then flush o1 else (o1, some 0)) with
+        | (o2, none) => (o2, nl, some (.inl .eioerr))
+        | (o2, some _) =>
+          let nl2 := if o1.buf.length ≥ cfg.capa then false else nl
+          if n ≤ -1 then
+            -- an invalid wide character
+            if cfg.ignoreEcerr then
+              if o2.buf.length ≥ cfg.capa then (o2, nl2, some (.inr .oobWrite))   -- the '?' would go beyond the buffer
+              else writeULoop cfg (ws.drop (wcnt + 1)) { o2 with buf := o2.buf ++ [0x3F] } nl2
+            else (o2, nl2, some (.inl .eecerr))
+          else
+            let nl3 := if !cfg.noAutoFlush && !nl2 then decide (0x0A ∈ ws.take wcnt) else nl2
+            if hz : wcnt = 0 then (o2, nl3, some (.inr .hang))   -- unreachable: n = 0 converts all of ws ≠ []
+            else writeULoop cfg (ws.drop wcnt) o2 nl3
+termination_by (ws.length, o.work)
 decreasing_by
-  · by_cases hc : wcnt = 0
-    · have hb : o.buf ≠ [] := fun hb => hprog ⟨hc, hb⟩
-      have : 0 < o.buf.length := List.length_pos_iff.mpr hb
-      subst hc
-      simp only [List.drop_zero, flush_buf, List.length_nil]
-      exact Prod.Lex.right _ this
-    · have : 0 < ws.length := List.length_pos_iff.mpr hw
-      apply Prod.Lex.left
+  · have : 0 < ws.length := List.length_pos_iff.mpr hw
+    by_cases hc : wcnt = 0
+    · subst hc
+      simp only [List.drop_zero]
+      exact Prod.Lex.right _ (by simpa using hprog)
+    · apply Prod.Lex.left
       simp only [List.length_drop]; omega
   · have : 0 < ws.length := List.length_pos_iff.mpr hw
     apply Prod.Lex.left
@@ -286,33 +328,54 @@ decreasing_by
     apply Prod.Lex.left
     simp only [List.length_drop]; omega
 
-/-- `hawk_tio_writeuchars (tio, wptr, wlen)`: result state and return (`.n` of nothing = wlen returned) -/
+/-- `hawk_tio_writeuchars (tio, wptr, wlen)`: result state and return (`none` = wlen returned, `some e` = -1) -/
 def writeUchars (cfg : Cfg) (ws : List Nat) (o : OutSt) : OutSt × Option (Sum Err Fault) :=
   if o.buf.length ≥ cfg.capa then (o, some (.inl .ebuffull))
   else
     let r := writeULoop cfg ws o false
     match r.2.2 with
     | some e => (r.1, some e)
-    | none => (if r.2.1 then flush r.1 else r.1, none)
+    | none =>
+      if r.2.1 then
+        match flush r.1 with
+        | (o2, none) => (o2, some (.inl .eioerr))
+        | (o2, some _) => (o2, none)
+      else (r.1, none)
 
 /-- the `while (mlen >= (capa = tio->out.buf.capa - tio->outbuf_len))` loop of `hawk_tio_writebchars`: the parts that cannot
-fit into the staging buffer.  (`capa > 0` always holds here: the entry check refuses a full buffer and every round ends
-with a flush; with `capa = 0` the C would spin.) -/
-def writeBBig (cfg : Cfg) (bs : List UInt8) (o : OutSt) : List UInt8 × OutSt :=
-  if h : bs.length ≥ cfg.capa - o.buf.length ∧ cfg.capa - o.buf.length > 0 then
-    writeBBig cfg (bs.drop (cfg.capa - o.buf.length)) (flush { o with buf := o.buf ++ bs.take (cfg.capa - o.buf.length) })
-  else (bs, o)
-termination_by bs.length
-decreasing_by simp only [List.length_drop]; omega
+fit into the staging buffer; result = (bytes not yet staged, state, error).  When a flush hands nothing out the buffer stays
+full, `capa` is 0 and the C goes round again asking the handler each time. -/
+def writeBBig (cfg : Cfg) (bs : List UInt8) (o : OutSt) : List UInt8 × OutSt × Option (Sum Err Fault) :=
+  if bs.length ≥ cfg.capa - o.buf.length then
+    match flush { o with buf := o.buf ++ bs.take (cfg.capa - o.buf.length) } with
+    | (o2, none) => (bs.drop (cfg.capa - o.buf.length), o2, some (.inl .eioerr))
+    | (o2, some _) =>
+      if hprog : cfg.capa - o.buf.length > 0 ∨ o2.work < o.work then writeBBig cfg (bs.drop (cfg.capa - o.buf.length)) o2
+      else (bs, o2, some (.inr .hang))
+  else (bs, o, none)
+termination_by (bs.length, o.work)
+decreasing_by
+  by_cases hc : cfg.capa - o.buf.length > 0
+  · apply Prod.Lex.left
+    simp only [List.length_drop]; omega
+  · have h0 : cfg.capa - o.buf.length = 0 := by omega
+    rw [h0]
+    simp only [List.drop_zero]
+    exact Prod.Lex.right _ (by rcases hprog with h | h; exact absurd h hc; exact h)
 
 /-- `hawk_tio_writebchars (tio, mptr, mlen)` with an explicit length -/
 def writeBchars (cfg : Cfg) (bs : List UInt8) (o : OutSt) : OutSt × Option (Sum Err Fault) :=
   if o.buf.length ≥ cfg.capa then (o, some (.inl .ebuffull))
   else
-    let r := writeBBig cfg bs o
-    -- the last part fits into the staging buffer
-    let o1 : OutSt := { r.2 with buf := r.2.buf ++ r.1 }
-    let nl := !cfg.noAutoFlush && decide ((0x0A : UInt8) ∈ r.1)
-    (if nl then flush o1 else o1, none)
+    match writeBBig cfg bs o with
+    | (_, o1, some e) => (o1, some e)
+    | (rest, o1, none) =>
+      -- the last part fits into the staging buffer
+      let o2 : OutSt := { o1 with buf := o1.buf ++ rest }
+      if !cfg.noAutoFlush && decide ((0x0A : UInt8) ∈ rest) then
+        match flush o2 with
+        | (o3, none) => (o3, some (.inl .eioerr))
+        | (o3, some _) => (o3, none)
+      else (o2, none)
 
 end Hawk.Tio
